@@ -684,7 +684,8 @@ def _check_copy(R, h, hp, expr, line, tparams):
         # src re-quantized with the destination's qtype, axis and scale
         if isinstance(s, ast.Attribute) and s.attr == fld and isinstance(s.value, ast.Call) and U(s.value.func).endswith("Quantizer.apply"):
             a = [U(z) for z in s.value.args]
-            if a == [src, f"{dest}.qtype", f"{dest}.axis", f"{dest}._scale"]:
+            # the plain source is broadcast to the destination first (copy_ accepts any source that broadcasts), or handed over as it is
+            if a[1:] == [f"{dest}.qtype", f"{dest}.axis", f"{dest}._scale"] and a[0] in (src, f"{src}.expand({dest}.size())", f"{src}.expand({dest}.shape)", f"{src}.expand_as({dest})", f"{src}.broadcast_to({dest}.shape)", f"{src}.broadcast_to({dest}.size())"):
                 continue
         ok = False
     extra = [k for k in stores if k not in ("_data", "_scale")]
